@@ -38,7 +38,7 @@ def rel(e):
 def run(tier):
     rep = vlib.Report("C11", tier, "exploration")
     wd = vlib.workdir("C11")
-    jobs = [["c11", os.path.join(wd, f"trace_{c}.ndjson"), c] for c in CURVES]
+    jobs = [["c11", os.path.join(wd, f"trace_{c}.ndjson"), c] + (["deep"] if tier == "thorough" else []) for c in CURVES]
     vlib.run_vh_parallel(jobs, timeout=3600)
     row_sets = []
     for j in jobs:
@@ -46,7 +46,7 @@ def run(tier):
         head = [r for r in rows if r["ev"] != "G"]
         gs = [r for r in rows if r["ev"] == "G"]
         # split into chunks so that validation runs in parallel
-        n = 4
+        n = 4 if tier == "quick" else 12
         for i in range(n):
             part = gs[i::n]
             if part:
